@@ -950,7 +950,7 @@ impl<'a> ActiveFileSet<'a> {
                 continue;
             };
 
-            if file_name.starts_with(&file_prefix) && file_name.ends_with(&file_ext) {
+            if is_file_set_member(file_name, file_prefix, file_ext) {
                 file_set.push(file_name.to_owned());
             }
         }
@@ -1187,6 +1187,43 @@ fn read_file_path_ts(path: &Path) -> Result<&str, io::Error> {
 
 fn file_name(file_prefix: &str, file_ext: &str, ts: &str, id: &str) -> String {
     format!("{}.{}.{}.{}", file_prefix, ts, id, file_ext)
+}
+
+// Whether a file name has the shape `{prefix}.{ts}.{millis}.{id}.{ext}` produced by `file_name`
+//
+// Matching on the prefix and extension alone would also pick up files belonging to other
+// file sets in the same directory, like `app2.{..}.log` or `app.debug.{..}.log` for the prefix `app`
+fn is_file_set_member(file_name: &str, file_prefix: &str, file_ext: &str) -> bool {
+    let file_name = file_name.as_bytes();
+    let file_prefix = file_prefix.as_bytes();
+    let file_ext = file_ext.as_bytes();
+
+    if file_name.len() < file_prefix.len()
+        || file_name.len() - file_prefix.len() < file_ext.len()
+        || !file_name.starts_with(file_prefix)
+        || !file_name.ends_with(file_ext)
+    {
+        return false;
+    }
+
+    // What's left between the prefix and extension is `.{ts}.{millis}.{id}.`
+    let middle = &file_name[file_prefix.len()..file_name.len() - file_ext.len()];
+
+    if middle.len() < 2 || middle[0] != b'.' || middle[middle.len() - 1] != b'.' {
+        return false;
+    }
+
+    let mut separators = 0;
+    let mut i = 0;
+    while i < middle.len() {
+        if middle[i] == b'.' {
+            separators += 1;
+        }
+
+        i += 1;
+    }
+
+    separators == 4
 }
 
 trait Filesystem {
